@@ -671,6 +671,17 @@ def ModeMixinNode(v):
     raise OutOfSubset(f"push of {v}")
 
 
+def _own_nodes(fd, include_self=False):
+    """the nodes of a function body that belong to the function itself (nested function / lambda / class bodies excluded)"""
+    stack = [fd] if include_self else list(ast.iter_child_nodes(fd))
+    while stack:
+        x = stack.pop()
+        yield x
+        if isinstance(x, (ast.FunctionDef, ast.AsyncFunctionDef, ast.Lambda, ast.ClassDef)) and x is not fd:
+            continue
+        stack.extend(ast.iter_child_nodes(x))
+
+
 class SymbolicModeCM(StackMixin, ModeMixin, LibModel):
     """symbolic.symbolic_mode (a generator based context manager) and, through it, rule_mode (C08):
     whatever way the block is left (normally or by an exception), the mode cell and the expression stack are exactly
@@ -765,10 +776,36 @@ class SymbolicModeCM(StackMixin, ModeMixin, LibModel):
     def on_yield(self, eng, st, v, ordinal, node):
         raise OutOfSubset("unexpected yield")
 
+    def suspended_mode_blocks(self):
+        """generator functions of the package (other than the context managers themselves) in which a
+        `with symbolic_mode(..)/rule_mode(..)` block contains a yield, or that set the mode cell directly: an iterator
+        suspended (or abandoned, or closed later from another block) there holds a mode block open, so leaving it writes a
+        stale mode into whatever block is active then"""
+        if getattr(self, '_smb', None) is None:
+            bad = []
+            for q, fd in self.src.funcs.items():
+                decos = [d.id if isinstance(d, ast.Name) else getattr(d, 'attr', '') for d in fd.decorator_list]
+                if 'contextmanager' in decos:
+                    continue
+                own = [x for x in _own_nodes(fd)]
+                if not any(isinstance(x, (ast.Yield, ast.YieldFrom)) for x in own):
+                    continue
+                for x in own:
+                    if isinstance(x, ast.With) and any(
+                            isinstance(it.context_expr, ast.Call) and isinstance(it.context_expr.func, ast.Name)
+                            and it.context_expr.func.id in ('symbolic_mode', 'rule_mode') for it in x.items):
+                        if any(isinstance(y, (ast.Yield, ast.YieldFrom)) for b in x.body for y in _own_nodes(b, include_self=True)):
+                            bad.append(f"{q}@L{x.lineno}")
+                    if isinstance(x, ast.Call) and isinstance(x.func, ast.Name) and x.func.id == '_set_symbolic_mode':
+                        bad.append(f"{q}@L{x.lineno}:_set_symbolic_mode")
+            self._smb = bad
+        return self._smb
+
     def on_exit(self, eng, o):
         kind = {NEXT: 'normal', RETURN: 'normal', RAISE: 'exception'}.get(o.sig, o.sig)
         if o.sig == RAISE and isinstance(o.val, C) and isinstance(o.val.v, Ref) and o.val.v.name != 'ExceptionInBlock':
             kind = 'exception:' + o.val.v.name
+        eng.oblige(o.st, "C08/no-generator-of-the-package-suspends-inside-a-mode-block", z3.BoolVal(not self.suspended_mode_blocks()))
         eng.oblige(o.st, f"C08/exit@{kind}/mode-restored", o.st.ghost['mode'] == o.st.ghost['mode0'])
         eng.oblige(o.st, f"C08/exit@{kind}/expression-stack-restored", o.st.ghost['stack'] == o.st.ghost['stack0'])
 
